@@ -459,7 +459,7 @@ let show_elabel = function
 (* dottree (text) : the distinct sub-terms and the labelled edges between them *)
 let op_dottree (args : sx) : string =
   match args with
-  | L [txt] ->
+  | L (txt :: _) ->
       let (uc, cps) = text_of txt in
       (match tokenize uc [] cps with
        | None -> "(err)"
@@ -493,7 +493,7 @@ let () =
 (* dotnamed filter (text) : the export of the evaluated formula, variables by id *)
 let op_dotnamed (args : sx) : string =
   match args with
-  | L [f; txt] ->
+  | L (f :: txt :: _) ->
       let (uc, cps) = text_of txt in
       (match parsed_formula uc [] cps with
        | Done p ->
